@@ -239,3 +239,42 @@ func DatapointFrom(pool []SeriesID, tsGen *rapid.Generator[int64]) *rapid.Genera
 		return m
 	})
 }
+
+// CopyMapSpare is CopyMap with tag slices that have spare capacity, as slices grown by append usually do (the tags of
+// a parsed metric live in such slices): code that appends to a series' tags without copying then shows.
+func CopyMapSpare(mm *gostatsd.MetricMap) *gostatsd.MetricMap {
+	out := CopyMap(mm)
+	spare := func(t gostatsd.Tags) gostatsd.Tags {
+		if t == nil {
+			return nil
+		}
+		s := make(gostatsd.Tags, len(t), len(t)+3)
+		copy(s, t)
+		return s
+	}
+	for n, byKey := range out.Counters {
+		for k, v := range byKey {
+			v.Tags = spare(v.Tags)
+			out.Counters[n][k] = v
+		}
+	}
+	for n, byKey := range out.Gauges {
+		for k, v := range byKey {
+			v.Tags = spare(v.Tags)
+			out.Gauges[n][k] = v
+		}
+	}
+	for n, byKey := range out.Timers {
+		for k, v := range byKey {
+			v.Tags = spare(v.Tags)
+			out.Timers[n][k] = v
+		}
+	}
+	for n, byKey := range out.Sets {
+		for k, v := range byKey {
+			v.Tags = spare(v.Tags)
+			out.Sets[n][k] = v
+		}
+	}
+	return out
+}
